@@ -162,6 +162,30 @@ class CInt:
             return None
         return None
 
+    def struct_info(self, t):
+        """(size, {field: offset}) of `struct X` when every field is a word (pointers, size_t, ...), else None"""
+        t = norm_type(t) or ''
+        if not t.startswith('struct '):
+            return None
+        r = self.P.records.get(t[7:].strip())
+        if not r:
+            return None
+        offs = {}
+        for i, f in enumerate(r['fields']):
+            ft = norm_type(f[1]) or ''
+            if not (ft.endswith('*') or ft in U64 or ft in S64 or ft == 'var'):
+                return None
+            offs[f[0]] = 8 * i
+        return 8 * len(r['fields']), offs
+
+    def elem_size(self, ptr_t):
+        el, sz = pointee(ptr_t)
+        if sz is None and el:
+            si = self.struct_info(el)
+            if si:
+                return el, si[0]
+        return el, sz
+
     def ptr_type(self, e):
         t = self.type_of(e)
         return t if t and t.rstrip().endswith('*') else None
@@ -219,11 +243,18 @@ class CInt:
                     pass
             if key in self.atoms:
                 return self.atoms[key]
+            if self.mem is not None and k == 'arrow':
+                a = self.ev(e[1])
+                if isinstance(a, int):
+                    si = self.struct_info(pointee(self.type_of(e[1]))[0])
+                    if si and e[2] in si[1]:
+                        self.mem_width = 8
+                        return self.mem(a + si[1][e[2]], self)
             if self.mem is not None and k in ('un', 'idx'):
                 pe = e[2] if k == 'un' else e[1]
                 a = self.ev(pe)
                 if isinstance(a, int):
-                    el, sz = pointee(self.type_of(pe))
+                    el, sz = self.elem_size(self.type_of(pe))
                     if k == 'idx':
                         if sz is None:
                             raise NoEval('element size of %s unknown' % ir.fmt(pe))
@@ -325,8 +356,8 @@ class CInt:
             if op in ('+', '-'):
                 # integer addresses: pointer arithmetic counts elements
                 ta, tb = self.ptr_type(e[2]), self.ptr_type(e[3])
-                sa = pointee(ta)[1] if ta else None
-                sb = pointee(tb)[1] if tb else None
+                sa = self.elem_size(ta)[1] if ta else None
+                sb = self.elem_size(tb)[1] if tb else None
                 if ta and tb and op == '-':
                     if sa and sa > 1:
                         return (a - b) // sa
@@ -413,7 +444,12 @@ class CInt:
             return None
         if not isinstance(a, int):
             return None
-        el, sz = pointee(self.type_of(pe))
+        if t[0] == 'arrow':
+            si = self.struct_info(pointee(self.type_of(pe))[0])
+            if si and t[2] in si[1]:
+                return a + si[1][t[2]], None, 8
+            return None
+        el, sz = self.elem_size(self.type_of(pe))
         if t[0] == 'idx':
             if sz is None:
                 return None
@@ -430,7 +466,7 @@ class CInt:
             self.locals[t[2]] = v
         elif t[0] == 'param':
             self.params[t[2]] = v
-        elif self.memw is not None and ((t[0] == 'un' and t[1] == '*') or t[0] == 'idx') and self._int_address(t) is not None:
+        elif self.memw is not None and ((t[0] == 'un' and t[1] == '*') or t[0] in ('idx', 'arrow')) and self._int_address(t) is not None:
             a, el, sz = self._int_address(t)
             self.memw(a, wrap(v, el) if isinstance(v, int) and el else v, sz, self)
         else:
@@ -470,8 +506,13 @@ class CInt:
                     v = self.ev(node['expr'])
                     nxt = None
                     for (w, l) in node['succ']:
-                        if isinstance(l, tuple) and l[0] == 'case' and l[1][0] == 'int' and l[1][1] == v:
-                            nxt = w
+                        if isinstance(l, tuple) and l[0] == 'case':
+                            try:
+                                lv = self.ev(l[1])
+                            except NoEval:
+                                continue
+                            if lv == v:
+                                nxt = w
                     if nxt is None:
                         nxt = [w for (w, l) in node['succ'] if l in ('default', 'nomatch')][0]
                     node = g.nodes[nxt]
